@@ -26,7 +26,7 @@ ASSUMPTIONS = [
 
 
 def config():
-    return st.fixed_dictionaries(dict(surfaces=S.aero_config(max_surf=3), flow=S.flow(beta=True, rot=True)))
+    return st.fixed_dictionaries(dict(surfaces=S.aero_config(max_surf=3), flow=S.flow(beta=True, rot=True), units=S.user_units()))
 
 
 def config_big():
@@ -57,8 +57,10 @@ def verdict(desc):
     meshes = place_surfaces(desc["surfaces"], fl["alpha"])
     syms = [symmetry_of(s["mesh"]) for s in desc["surfaces"]]
     surfaces = [aero_surface("s%d" % k, m, syms[k]) for k, m in enumerate(meshes)]
-    prob = aero_direct(surfaces, fl)
+    prob = aero_direct(surfaces, fl, units=desc.get("units"))
     prob.run_model()
+    if desc.get("units") and any(v not in ("m", "m/s", "deg", "kg/m**3", "1/m", "rad/s") for v in desc["units"].values()):
+        out.label("non-SI-user-units")
     P = "aero_point_0.aero_states."
     mtx = prob.get_val(P + "mtx")
     rhs = prob.get_val(P + "rhs")
